@@ -84,21 +84,39 @@ type faultCtl struct {
 	calls  int
 	failAt int
 	pan    bool
+	neg    bool // the failing call answers "nothing" WITHOUT an error where its signature allows it
 	fired  string
+	trace  []string // names of the calls made, in order
 }
 
-func (f *faultCtl) arm(k int, pan bool) { f.calls, f.failAt, f.pan, f.fired = 0, k, pan, "" }
-func (f *faultCtl) hit(name string) error {
+var errNegative = errors.New("verif: negative answer")
+
+func (f *faultCtl) arm(k int, pan bool) {
+	f.calls, f.failAt, f.pan, f.neg, f.fired, f.trace = 0, k, pan, false, "", nil
+}
+
+// hit: nil = go on; errNegative = the proxy returns its zero answer with a nil error (only asked of
+// proxies that have such an answer: hasNeg); anything else = return that error
+func (f *faultCtl) hit(name string, hasNeg bool) error {
 	n := f.calls
 	f.calls++
+	f.trace = append(f.trace, name)
 	if n == f.failAt {
 		f.fired = name
 		if f.pan {
 			panic(panicInjected)
 		}
+		if f.neg && hasNeg {
+			f.fired = name + " (negative answer)"
+			return errNegative
+		}
 		return errInjected
 	}
 	return nil
+}
+
+func negCapable(name string) bool {
+	return name == "evm.PickValidatorForMessage" || name == "evm.GetEthAddressByValidator"
 }
 
 // token-factory collaborator of msgServer.SetERC20ToTokenDenom: user 0 administers every factory
@@ -121,35 +139,35 @@ type bankProxy struct {
 }
 
 func (b bankProxy) SendCoinsFromModuleToAccount(ctx context.Context, m string, r sdk.AccAddress, amt sdk.Coins) error {
-	if err := b.f.hit("bank.SendCoinsFromModuleToAccount"); err != nil {
+	if err := b.f.hit("bank.SendCoinsFromModuleToAccount", false); err != nil {
 		return err
 	}
 	return b.BankKeeper.SendCoinsFromModuleToAccount(ctx, m, r, amt)
 }
 
 func (b bankProxy) SendCoinsFromAccountToModule(ctx context.Context, s sdk.AccAddress, m string, amt sdk.Coins) error {
-	if err := b.f.hit("bank.SendCoinsFromAccountToModule"); err != nil {
+	if err := b.f.hit("bank.SendCoinsFromAccountToModule", false); err != nil {
 		return err
 	}
 	return b.BankKeeper.SendCoinsFromAccountToModule(ctx, s, m, amt)
 }
 
 func (b bankProxy) SendCoinsFromModuleToModule(ctx context.Context, s, r string, amt sdk.Coins) error {
-	if err := b.f.hit("bank.SendCoinsFromModuleToModule"); err != nil {
+	if err := b.f.hit("bank.SendCoinsFromModuleToModule", false); err != nil {
 		return err
 	}
 	return b.BankKeeper.SendCoinsFromModuleToModule(ctx, s, r, amt)
 }
 
 func (b bankProxy) MintCoins(ctx context.Context, m string, amt sdk.Coins) error {
-	if err := b.f.hit("bank.MintCoins"); err != nil {
+	if err := b.f.hit("bank.MintCoins", false); err != nil {
 		return err
 	}
 	return b.BankKeeper.MintCoins(ctx, m, amt)
 }
 
 func (b bankProxy) BurnCoins(ctx context.Context, m string, amt sdk.Coins) error {
-	if err := b.f.hit("bank.BurnCoins"); err != nil {
+	if err := b.f.hit("bank.BurnCoins", false); err != nil {
 		return err
 	}
 	return b.BankKeeper.BurnCoins(ctx, m, amt)
@@ -161,21 +179,27 @@ type evmProxy struct {
 }
 
 func (e evmProxy) GetChainInfo(ctx context.Context, c string) (*evmtypes.ChainInfo, error) {
-	if err := e.f.hit("evm.GetChainInfo"); err != nil {
+	if err := e.f.hit("evm.GetChainInfo", false); err != nil {
 		return nil, err
 	}
 	return e.EVMKeeper.GetChainInfo(ctx, c)
 }
 
 func (e evmProxy) PickValidatorForMessage(ctx context.Context, c string, r *xchain.JobRequirements) (string, string, error) {
-	if err := e.f.hit("evm.PickValidatorForMessage"); err != nil {
+	if err := e.f.hit("evm.PickValidatorForMessage", true); err != nil {
+		if err == errNegative {
+			return "", "", nil // nobody picked, no error
+		}
 		return "", "", err
 	}
 	return e.EVMKeeper.PickValidatorForMessage(ctx, c, r)
 }
 
 func (e evmProxy) GetEthAddressByValidator(ctx context.Context, v sdk.ValAddress, c string) (*types.EthAddress, bool, error) {
-	if err := e.f.hit("evm.GetEthAddressByValidator"); err != nil {
+	if err := e.f.hit("evm.GetEthAddressByValidator", true); err != nil {
+		if err == errNegative {
+			return nil, false, nil // found = false without an error: the live registry has no account for that chain
+		}
 		return nil, false, err
 	}
 	return e.EVMKeeper.GetEthAddressByValidator(ctx, v, c)
@@ -228,6 +252,9 @@ type evSpec struct {
 	Eth   uint64 `json:"eth,omitempty"`
 	R     int    `json:"r,omitempty"`
 	Amt   string `json:"amt,omitempty"`
+	// a claim that was observed already and is voted again after the observed nonce was reset: the
+	// pinned code refuses to process an Observed attestation, the chain's tally stops at it
+	Replay bool `json:"-"`
 }
 
 type estSpec struct {
@@ -256,7 +283,9 @@ type env struct {
 	lastEth  []uint64
 	queue    [][]evSpec
 	pendEst  []estSpec
-	compass  []string // id of the compass deployment the tally accepts claims from, per chain
+	compass  []string   // id of the compass deployment the tally accepts claims from, per chain
+	observed [][]evSpec // claims the tally consumed, per chain, oldest first (observed[c][i] had nonce first[c]+i)
+	firstObs []uint64
 }
 
 func mustNoErr(t *testing.T, err error) {
@@ -366,10 +395,13 @@ func setup(t *testing.T, cfg config) *env {
 	e.skyNonce = make([]uint64, len(chains))
 	e.lastEth = make([]uint64, len(chains))
 	e.queue = make([][]evSpec, len(chains))
+	e.observed = make([][]evSpec, len(chains))
+	e.firstObs = make([]uint64, len(chains))
 	for c, ch := range chains {
 		n, err := e.k.GetLastObservedSkywayNonce(ctx, ch)
 		mustNoErr(t, err)
 		e.skyNonce[c] = n + 1
+		e.firstObs[c] = n + 1
 		e.compass = append(e.compass, e.k.GetLatestCompassID(ctx, ch))
 	}
 	return e
@@ -548,6 +580,7 @@ type opSpec struct {
 	Ests  []estSpec `json:"ests,omitempty"`  // fullblock: estimates submitted before this block
 	Fault int       `json:"fault"`           // index of the collaborator call of this op that fails; -1 none
 	Panic bool      `json:"panic,omitempty"` // ... by panicking instead of returning an error
+	Neg   bool      `json:"neg,omitempty"`   // ... or by answering "not found" / "nobody" with a nil error (calls that can)
 	Quiet bool      `json:"quiet,omitempty"` // record only the outcome for the model (bulk steps of long histories)
 }
 
@@ -589,7 +622,8 @@ type hist struct {
 	steps    []string
 	human    []string
 	acc      map[uint64]txo
-	accD     map[uint64]int // denom whose coins were locked when the transfer was accepted
+	accD     map[uint64]int  // denom whose coins were locked when the transfer was accepted
+	applied  map[string]bool // remote events whose handler ran to the end inside an end-block
 	refund   map[uint64]bool
 	burned   map[uint64]bool
 	dep      []*big.Int
@@ -771,6 +805,9 @@ func (h *hist) prepare(o *opSpec) prep {
 		for _, c := range e.active {
 			var evs []string
 			for _, ev := range e.queue[c] {
+				if ev.Replay {
+					break // TryAttestation refuses an attestation that is Observed already: this chain's tally ends here
+				}
 				evs = append(evs, coqEv(ev))
 				any = true
 			}
@@ -798,6 +835,7 @@ type result struct {
 	atomic bool
 	fired  string
 	calls  int
+	trace  []string
 }
 
 // apply runs one operation on ctx (the root, or a branch that is thrown away) under the op's fault.
@@ -813,6 +851,7 @@ func (h *hist) apply(ctx sdk.Context, o opSpec, p prep) result {
 	fl := coqFault(o.Fault)
 	e.rec.log = nil
 	e.f.arm(o.Fault, o.Panic)
+	e.f.neg = o.Neg
 	switch o.Kind {
 	case "send":
 		coin := sdk.Coin{Denom: denoms[o.D], Amount: sdkmath.NewIntFromBigInt(amt)}
@@ -891,6 +930,54 @@ func (h *hist) apply(ctx sdk.Context, o opSpec, p prep) result {
 			panic(fmt.Sprintf("SetBridgeTransferLimitProposal(%q) failed: %v", o.Amt, r.err))
 		}
 		r.term = "OGov"
+	case "resetnonce":
+		// governance resets the chain's observed event nonce to just below the last observed claim
+		// (MsgNonceOverrideProposal through the real msg server; the compass-activation handler calls
+		// the same overrideNonce), then the relayers replay the event: all validators submit the
+		// IDENTICAL claim again through the real claim msg servers.  One remote event must not be
+		// applied twice: the stored attestation is Observed, the tally refuses it.
+		n := len(e.observed[o.C])
+		if n == 0 || len(e.queue[o.C]) > 0 {
+			r.term = "OGov" // nothing to replay
+			break
+		}
+		ev := e.observed[o.C][n-1]
+		sky := e.skyNonce[o.C] - 1
+		r.err, r.pan = deliver(ctx, true, func(ctx sdk.Context) error {
+			if _, err := e.ms.OverrideNonceProposal(ctx, &types.MsgNonceOverrideProposal{Metadata: valsettypes.MsgMetadata{Creator: ""}, ChainReferenceId: chains[o.C], Nonce: sky - 1}); err != nil {
+				return err
+			}
+			for _, orch := range keeper.AccAddrs {
+				var err error
+				switch cl := h.claimOf(ev, sky, orch).(type) {
+				case *types.MsgSendToPalomaClaim:
+					_, err = e.ms.SendToPalomaClaim(ctx, cl)
+				case *types.MsgBatchSendToRemoteClaim:
+					_, err = e.ms.BatchSendToRemoteClaim(ctx, cl)
+				}
+				if err != nil {
+					return err
+				}
+			}
+			return nil
+		})
+		if r.pan {
+			panic(fmt.Sprintf("nonce override + replay of %+v panicked: %v", ev, r.err))
+		}
+		if r.err != nil {
+			// the claim msg server refuses the replay (an executed-batch claim for a batch that is
+			// still open and timed out): the transaction, override included, is rolled back
+			h.run.Count("nonce-reset-and-replay", ev.Kind+" refused")
+			r.err, r.term = nil, "OGov"
+			break
+		}
+		if ctx.MultiStore() == e.root.MultiStore() { // not a probe
+			ev.Replay = true
+			e.queue[o.C] = append(e.queue[o.C], ev)
+			e.observed[o.C] = e.observed[o.C][:n-1]
+		}
+		h.run.Count("nonce-reset-and-replay", ev.Kind)
+		r.term = "OGov"
 	case "mapgov":
 		// governance path of setDenomToERC20 (legacy proposal handler; MsgSetERC20MappingProposal calls the same function)
 		r.err, r.pan = deliver(ctx, true, func(ctx sdk.Context) error {
@@ -938,7 +1025,7 @@ func (h *hist) apply(ctx sdk.Context, o opSpec, p prep) result {
 	default:
 		panic("unknown op kind " + o.Kind)
 	}
-	r.fired, r.calls = e.f.fired, e.f.calls
+	r.fired, r.calls, r.trace = e.f.fired, e.f.calls, e.f.trace
 	e.f.arm(-1, false)
 	return r
 }
@@ -983,7 +1070,7 @@ func (h *hist) attest(ctx sdk.Context, claim interface {
 // probe-able: operations whose every fault point can be tried from the same pre-state
 func faultable(kind string) bool {
 	switch kind {
-	case "settax", "setlimit", "mapgov":
+	case "settax", "setlimit", "mapgov", "resetnonce":
 		return false
 	}
 	return true
@@ -1007,19 +1094,23 @@ func (h *hist) probes(o opSpec, p prep, before snap, all bool) []string {
 		return nil
 	}
 	var out []string
+	var trace []string
 	one := func(po opSpec) int {
 		b, _ := e.root.CacheContext()
 		r := h.apply(b, po, p)
 		after := e.snapshot(b)
 		ok := r.err == nil && !r.pan
 		h.probeN++
-		h.run.Count("probe", po.Kind+fmt.Sprintf("/fault=%v/panic=%v", po.Fault >= 0, po.Panic))
+		h.run.Count("probe", po.Kind+fmt.Sprintf("/fault=%v/panic=%v/neg=%v", po.Fault >= 0, po.Panic, po.Neg))
+		if po.Fault < 0 {
+			trace = r.trace
+		}
 		if r.fired != "" {
 			h.run.Count("probe-fault-fired", po.Kind+"/"+r.fired)
 		}
 		h.stateOracle(po, "probe of "+po.Kind, after, e.denomBranch(b))
 		if !ok && r.atomic && !before.equal(after) {
-			h.violate("C01:failed-"+po.Kind+"-changed-state", fmt.Sprintf("%s (fault %d, panic %v) reported failure but pool/batches/balances changed", po.Kind, po.Fault, po.Panic))
+			h.violate("C01:failed-"+po.Kind+"-changed-state", fmt.Sprintf("%s (fault %d, panic %v, negative answer %v) reported failure but pool/batches/balances changed", po.Kind, po.Fault, po.Panic, po.Neg))
 		}
 		if !ok && po.Kind == "send" && !usageEq(before, after) {
 			h.violate("C01:failed-send-changed-limit-usage", "a refused SendToRemote changed the transfer-limit usage")
@@ -1045,8 +1136,13 @@ func (h *hist) probes(o opSpec, p prep, before snap, all bool) []string {
 		sort.Ints(ks)
 	}
 	for _, k := range ks {
-		po.Fault, po.Panic = k, false
+		po.Fault, po.Panic, po.Neg = k, false, false
 		one(po)
+		if k < len(trace) && negCapable(trace[k]) {
+			po.Neg = true // the same call answers "not found" / "nobody" without an error
+			one(po)
+			po.Neg = false
+		}
 		if panicSafe && panicable(o.Kind) {
 			po.Panic = true
 			h.panics = true
@@ -1137,6 +1233,9 @@ func (h *hist) afterBlock(after snap) {
 		}
 		first := e.skyNonce[c] - uint64(len(e.queue[c])) // nonce of the oldest waiting claim
 		for len(e.queue[c]) > 0 && first <= last {
+			if !e.queue[c][0].Replay {
+				e.observed[c] = append(e.observed[c], e.queue[c][0])
+			}
 			e.queue[c] = e.queue[c][1:]
 			first++
 			h.run.Count("claims-tallied-by-endblocker", chains[c])
@@ -1294,6 +1393,14 @@ func (h *hist) oracle(o opSpec, ok, atomicKind bool, before, after snap, log []h
 			if hd.err != nil {
 				continue
 			}
+			// each remote event (chain, compass, nonce, claim hash) is applied at most once
+			if hash, herr := hd.claim.ClaimHash(); herr == nil {
+				key := fmt.Sprintf("%s/%s/%d/%x", hd.claim.GetChainReferenceId(), hd.claim.GetCompassID(), hd.claim.GetSkywayNonce(), hash)
+				if h.applied[key] {
+					h.violate("C01:remote-event-applied-twice", fmt.Sprintf("after %s: the %s claim with skyway nonce %d of %s was applied a second time (supply / escrow moved twice for one remote event)", o.Kind, hd.claim.GetType(), hd.claim.GetSkywayNonce(), hd.claim.GetChainReferenceId()))
+				}
+				h.applied[key] = true
+			}
 			switch cl := hd.claim.(type) {
 			case *types.MsgBatchSendToRemoteClaim:
 				burnTxs(hd.txs) // the batch as the handler found it (it may have been built earlier in this very block)
@@ -1307,7 +1414,7 @@ func (h *hist) oracle(o opSpec, ok, atomicKind bool, before, after snap, log []h
 			}
 		}
 	}
-	if (o.Kind == "settax" || o.Kind == "setlimit" || o.Kind == "mapgov" || o.Kind == "mapadmin") && !before.equal(after) {
+	if (o.Kind == "settax" || o.Kind == "setlimit" || o.Kind == "mapgov" || o.Kind == "mapadmin" || o.Kind == "resetnonce") && !before.equal(after) {
 		h.violate("C01:governance-moved-bridge-funds", o.Kind+" changed pool / batches / balances")
 	}
 	// (4) a bridge operation that reports failure leaves pool, batches and balances as they were
@@ -1552,6 +1659,15 @@ func (h *hist) genOp(r *rand.Rand, ck *clock, search bool) opSpec {
 			o.U = r.Intn(1 << nUsers)
 		}
 		return o
+	case g < 12:
+		// nonce reset + replay of the last observed claim of a chain (needs one, and nothing waiting there)
+		for _, c := range r.Perm(len(chains)) {
+			if len(e.observed[c]) > 0 && len(e.queue[c]) == 0 {
+				o.Kind, o.Fault, o.C = "resetnonce", -1, c
+				return o
+			}
+		}
+		fallthrough
 	case g < 16:
 		// the denom table is written while transfers are pending, inside the guard "the contract is
 		// not bound to another denom on that chain": a new (chain, denom) pair, a denom re-mapped to a
@@ -1624,6 +1740,8 @@ func (h *hist) genOp(r *rand.Rand, ck *clock, search bool) opSpec {
 	pan := func() {
 		if o.Fault >= 0 && panicSafe && r.Intn(100) < 35 {
 			o.Panic = true
+		} else if o.Fault >= 0 && r.Intn(100) < 40 {
+			o.Neg = true // relayer selection / address lookup answer "nobody" / "not found" with a nil error
 		}
 	}
 	switch {
@@ -1799,7 +1917,7 @@ func hasRow(rows []entry, c, d int) bool {
 }
 
 func newHist(t *testing.T, run *emit.Run, cfg config) *hist {
-	h := &hist{e: setup(t, cfg), run: run, cfg: cfg, acc: map[uint64]txo{}, accD: map[uint64]int{}, refund: map[uint64]bool{}, burned: map[uint64]bool{}}
+	h := &hist{e: setup(t, cfg), run: run, cfg: cfg, acc: map[uint64]txo{}, accD: map[uint64]int{}, applied: map[string]bool{}, refund: map[uint64]bool{}, burned: map[uint64]bool{}}
 	h.thorough = run.Tier == "thorough"
 	for range denoms {
 		h.dep = append(h.dep, big.NewInt(0))
